@@ -128,6 +128,11 @@ type Exec struct {
 	mapOrderFn string
 	expectPanicDepth int
 	local            *localCtx
+	schedOn          bool
+	schedAllow       []string
+	gors             []*gor
+	curG             *gor
+	gorPanic         interface{}
 	mergeFns         map[string]bool
 	curFrame   *frame
 	chanSeq    int
@@ -223,6 +228,11 @@ func (ex *Exec) resetPath(item workItem) {
 	ex.randBudget = 0
 	ex.mapOrders = false
 	ex.mapOrderFn = ""
+	ex.schedOn = false
+	ex.schedAllow = nil
+	ex.gors = nil
+	ex.curG = nil
+	ex.gorPanic = nil
 	ex.expectPanicDepth = 0
 	ex.curFrame = nil
 	ex.clock = nil
@@ -881,8 +891,16 @@ func (ex *Exec) visit(fr *frame, instr ssa.Instruction) {
 		fn, args := ex.prepareCall(fr, &in.Call)
 		fr.defers = append(fr.defers, &deferred{fn: fn, args: args, site: in})
 	case *ssa.Go:
-		ex.goroutines++
-		ex.stubHits["go statement (not run)"]++
+		fn, args := ex.prepareCall(fr, &in.Call)
+		if ex.schedAllowed(fnName(fn)) {
+			ex.spawn(fn, args)
+			ex.stubHits["go statement (scheduled)"]++
+			ex.yield(nil)
+			ex.curFrame = fr
+		} else {
+			ex.goroutines++
+			ex.stubHits["go statement (not run)"]++
+		}
 	case *ssa.RunDefers:
 		ex.runDefers(fr)
 		if fr.panicking != nil {
@@ -1910,31 +1928,51 @@ func innerType(t types.Type) types.Type {
 
 func (ex *Exec) chanSend(c *ChanObj, v Value) {
 	if c == nil {
-		ex.end(OutDeadlock, "send on nil channel")
+		ex.yield(func() bool { return false })
 	}
 	if c.closed {
 		ex.goPanic("send on closed channel")
 	}
+	if c.cap == 0 {
+		// unbuffered: hand the value over and wait until a receiver took it
+		it := &sendItem{v: v}
+		c.sendq = append(c.sendq, it)
+		ex.yield(func() bool { return it.taken })
+		return
+	}
 	if len(c.buf) >= c.cap {
-		ex.end(OutDeadlock, "send would block (single-threaded execution)")
+		ex.yield(func() bool { return len(c.buf) < c.cap })
 	}
 	c.buf = append(c.buf, v)
+	if ex.schedOn {
+		ex.yield(nil)
+	}
 }
 
 func (ex *Exec) chanRecv(c *ChanObj, t types.Type) (Value, bool) {
 	if c == nil {
-		ex.end(OutDeadlock, "receive on nil channel")
+		ex.yield(func() bool { return false })
+	}
+	if len(c.buf) == 0 && len(c.sendq) == 0 && !c.closed {
+		ex.yield(func() bool { return len(c.buf) > 0 || len(c.sendq) > 0 || c.closed })
+	} else if ex.schedOn {
+		ex.yield(nil)
+		if len(c.buf) == 0 && len(c.sendq) == 0 && !c.closed {
+			ex.yield(func() bool { return len(c.buf) > 0 || len(c.sendq) > 0 || c.closed })
+		}
 	}
 	if len(c.buf) > 0 {
 		v := c.buf[0]
 		c.buf = c.buf[1:]
 		return v, true
 	}
-	if c.closed {
-		return ex.zero(t), false
+	if len(c.sendq) > 0 {
+		it := c.sendq[0]
+		c.sendq = c.sendq[1:]
+		it.taken = true
+		return it.v, true
 	}
-	ex.end(OutDeadlock, "receive would block (single-threaded execution)")
-	return nil, false
+	return ex.zero(t), false
 }
 
 // ---------- builtins ----------
